@@ -641,12 +641,26 @@ fn keyid_case<B: Backend>(cx: &mut Ctx, rng: &mut Prng, pairs: &[keys::Pair]) {
     let fam = eval::fam_against(B::NAME);
     let kind = c["ktype"].as_str().unwrap();
     let klen = c["klen"].as_u64().unwrap() as usize;
-    let cands: Vec<Vec<u8>> = match kind {
-        "local" => vec![rng.bytes(32), vec![0u8; 32], vec![0xff; 32]],
-        "public" => pairs.iter().map(|p| p.public.clone()).filter(|k| k.len() == klen).collect(),
-        _ => pairs.iter().map(|p| p.secret.clone()).filter(|k| k.len() == klen).collect(),
+    let mut cands: Vec<(Vec<u8>, bool)> = match kind {
+        "local" => vec![(rng.bytes(32), false), (vec![0u8; 32], false), (vec![0xff; 32], false)],
+        "public" => pairs.iter().map(|p| (p.public.clone(), false)).filter(|k| k.0.len() == klen).collect(),
+        _ => pairs.iter().map(|p| (p.secret.clone(), false)).filter(|k| k.0.len() == klen).collect(),
     };
-    for kb in cands {
+    if kind == "public" && (B::VER == 2 || B::VER == 4) {
+        // non-reduced encodings of curve points (y >= p): a backend may refuse them, but one that accepts them keeps the
+        // bytes it was given (C08), so the id is the digest of the text it was given - on both backends of the version
+        for low in 0xedu8..=0xff {
+            for top in [0x7fu8, 0xff] {
+                let mut e = vec![0xffu8; 32];
+                e[0] = low;
+                e[31] = top;
+                if crate::obs_keys::ed_on_curve(&e).0 {
+                    cands.push((e, true));
+                }
+            }
+        }
+    }
+    for (kb, lenient) in cands {
         let mut inp: Inputs = HashMap::new();
         inp.insert("keybytes".into(), kb.clone());
         macro_rules! go {
@@ -661,6 +675,7 @@ fn keyid_case<B: Backend>(cx: &mut Ctx, rng: &mut Prng, pairs: &[keys::Pair]) {
                         let again: Key<B::V, $K> = k.expose_key().to_string().parse().unwrap();
                         cx.emit("stable", "equal", again.id() == id && k.clone().id() == id, json!({"what": "clone / reparse"}));
                     }
+                    Err(_) if lenient => {}
                     Err(_) => cx.emit("forward", "equal", false, json!({"real_error": "key does not parse"})),
                 }
             }};
@@ -953,14 +968,31 @@ pub fn run(rec: &mut Recorder, cases_path: &str, thorough: bool, seed: u64, kind
             use paseto_core::paserk::KeyId;
             use paseto_core::version::{PkePublic, PkeSecret, Secret};
             fn one<B: Backend, K: paseto_core::key::KeyType>(rec: &mut Recorder, label: &str, kind: &str, body: &[u8], total: &mut u64) {
-                let text = format!("k{}.{}.{}", B::VER, label, crate::b64::enc(body));
+                let exact = format!("k{}.{}.", B::VER, label);
+                with_header::<B, K>(rec, &exact, true, kind, body, total);
+                if body.len() == 33 {
+                    // the type header must be there in full: truncated, doubled-dot, missing and re-cased headers
+                    let v = B::VER;
+                    let mut hs = vec![format!("k{v}."), format!("k{v}.."), format!("k{v}"), format!("k{v}.{label}"), format!("k{v}.{label}.."), format!("k{v}..{label}."),
+                                      format!("K{v}.{label}."), format!("k{v}.{}.", label.to_uppercase()), format!(".{label}."), format!("{label}."), String::new()];
+                    for cut in 1..label.len() {
+                        hs.push(format!("k{v}.{}.", &label[..cut]));
+                        hs.push(format!("k{v}.{}", &label[..cut]));
+                    }
+                    for h in hs {
+                        with_header::<B, K>(rec, &h, false, kind, body, total);
+                    }
+                }
+            }
+            fn with_header<B: Backend, K: paseto_core::key::KeyType>(rec: &mut Recorder, header: &str, exact: bool, kind: &str, body: &[u8], total: &mut u64) {
+                let text = format!("{header}{}", crate::b64::enc(body));
                 let r = catch_unwind(AssertUnwindSafe(|| text.parse::<KeyId<B::V, K>>().map(|k| (k.to_string(), k.as_bytes().to_vec()))));
                 let (ok, back, bytes_back, panic) = match r {
                     Ok(Ok((t, b))) => (true, t == text, b[..] == body[..], false),
                     Ok(Err(_)) => (false, false, false, false),
                     Err(_) => (false, false, false, true),
                 };
-                rec.emit(json!({"fn":"idparse","be":B::NAME,"id_kind":kind,"len":body.len(),"ok":ok,"text_back":back,"bytes_back":bytes_back,"panic":panic}));
+                rec.emit(json!({"fn":"idparse","be":B::NAME,"id_kind":kind,"len":body.len(),"header_exact":exact,"header":header,"ok":ok,"text_back":back,"bytes_back":bytes_back,"panic":panic}));
                 *total += 1;
             }
             for len in 0..=40usize {
